@@ -263,6 +263,13 @@ def run(ctx):
                 else:
                     ctx.bad('C12.5-recipes', inst, 'atom arm does not compare the names: %s' % pr, ctx.where(B, r['bb']), key='SHAPE:%s:Atom:by-name' % cmpname)
 
+    # ---------------- cross-checks shared with C11 -------------------------------------------------------------------------
+    ctx.rule('C12.6-comparator-hygiene', 'on the comparison path of both term types: no comparison has the same operand (or different fields) on its two sides, the order of every identifier struct reads the fields its == reads, '
+             'truncating big-integer reads are guarded, and the numeric helpers duplicated for the two term types perform the same operations (rules C11.1-no-self-compare, C11.3-eq-hash-fields, C11.4-bigint-truncation, C11.5-twin-helpers re-run here)', floor=60)
+    from ..order import SubCtx as _Sub
+    from . import c11 as _c11
+    _c11.run(_Sub(ctx, 'C12.6-comparator-hygiene', 'c11', allow=('C11.1-no-self-compare', 'C11.3-eq-hash-fields', 'C11.4-bigint-truncation', 'C11.5-twin-helpers')))
+
 
 def _digit_walk(P, fn):
     """How does helper `fn` (and its closures) walk two digit slices?  ('ok'|'bad'|'undecided', why)"""
